@@ -133,6 +133,7 @@ type Scenario struct {
 	SIcpt  int    `json:"sicpt"`  // server built with that many pass-through unary and stream interceptors (1: single, >1: chained)
 	CIcpt  int    `json:"cicpt"`  // the same for the client connection
 	SStats int    `json:"sstats"`
+	NoTok  bool   `json:"notoken"` // calls carry no call token (strictly sequential scenarios only): see anonTab
 	Anon   bool   `json:"anon"` // README: "If names are not desirable ... an empty string for the destination and server names"
 	Steps  []Step `json:"steps"`
 }
@@ -752,6 +753,11 @@ func runScenario(t *testing.T, sc *Scenario) {
 		tr.start = time.Now()
 		tr.mu.Unlock()
 		verifhook.Install(&verifhook.Hooks{Emit: rt.hookEmit, Gate: rt.g.gate})
+		anon = nil
+		if sc.NoTok {
+			anon = &anonTab{idTok: map[string]int{}}
+		}
+		defer func() { anon = nil }()
 		rt.defaults()
 		b := ev("Begin")
 		b.K, b.X = sc.Fam, sc.Topo
